@@ -133,6 +133,9 @@ def gen_history(rng, tree, R, abs_sentinel, n_ops, k=0):
         elif r < 0.40:
             ops.append({'op': 'opendir', 'i': islot(), 'flags': 0}); nh += 1
             ops.append({'op': 'readdir', 'i': ops[-1]['i'], 'h': nh - 1, 'size': 4096, 'off': 0})
+            ops.append({'op': 'readdirplus', 'i': ops[-2]['i'], 'h': nh - 1, 'size': 8192, 'off': 0})
+            if rng.random() < 0.5: ops.append({'op': 'fsyncdir', 'i': ops[-3]['i'], 'h': nh - 1})
+            if rng.random() < 0.3: ops.append({'op': 'releasedir', 'i': ops[-1]['i'], 'h': nh - 1})
         elif r < 0.46: ops.append({'op': 'getattr', 'i': islot(), 'h': None})
         elif r < 0.50: ops.append({'op': 'readlink', 'i': islot()})
         elif r < 0.57:
@@ -153,7 +156,19 @@ def gen_history(rng, tree, R, abs_sentinel, n_ops, k=0):
         elif r < 0.93: ops.append({'op': 'unlink', 'p': islot(), 'name': nm()})
         elif r < 0.96: ops.append({'op': 'rmdir', 'p': islot(), 'name': nm()})
         elif r < 0.98: ops.append({'op': 'setxattr', 'i': islot(), 'name': b'user.k', 'value': b'v', 'flags': 0})
-        else: ops.append({'op': 'getxattr', 'i': islot(), 'name': b'user.k', 'size': 16})
+        elif r < 0.985: ops.append({'op': 'getxattr', 'i': islot(), 'name': b'user.k', 'size': 16})
+        else:
+            # the remaining inode/handle-taking methods, a few per history
+            c = rng.randrange(9)
+            if c == 0: ops.append({'op': 'statfs', 'i': islot()})
+            elif c == 1: ops.append({'op': 'access', 'i': islot(), 'mask': rng.randrange(8), 'uid': rng.choice([0, 7]), 'gid': 0})
+            elif c == 2: ops.append({'op': 'listxattr', 'i': islot(), 'size': rng.choice([0, 64])})
+            elif c == 3: ops.append({'op': 'removexattr', 'i': islot(), 'name': b'user.k'})
+            elif c == 4: ops.append({'op': 'fallocate', 'i': islot(), 'h': hslot(), 'mode': rng.choice([0, 3]), 'off': 0, 'len': 8})
+            elif c == 5: ops.append({'op': 'lseek', 'i': islot(), 'h': hslot(), 'off': 2, 'whence': rng.choice([0, 1, 2])})
+            elif c == 6: ops.append({'op': 'fsync', 'i': islot(), 'h': hslot()})
+            elif c == 7: ops.append({'op': 'flush', 'i': islot(), 'h': hslot()})
+            else: ops.append({'op': 'release', 'i': islot(), 'h': hslot()})
     # targeted tail: a device node and the FIFO are looked up and opened (must be refused: EBADF), the planted links are
     # opened/truncated/chmod-ed through their inodes (must not reach their targets)
     ops.append({'op': 'mknod', 'p': 0, 'name': b'devnode', 'mode': 0o020666, 'rdev': 0x103, 'umask': 0, 'uid': 0, 'gid': 0}); ni += 1
@@ -281,14 +296,14 @@ def run_check(tier, seed):
                 if spec_unsafe(nme.encode('utf-8', 'surrogateescape')): findings.append({'what': 'an entry with an unsafe name was created: %r' % nme, 'sig': {'layer': 'pt', 'method': 'create'}})
 
         # ---------------- (B) sentinel histories, standalone and behind a Vfs
-        n_hist = 20 if quick else 400
+        n_hist = 16 if quick else 400
         hist = []
         for k in range(n_hist):
             top = os.path.join(base, 'h%d' % k); os.makedirs(top)
             sent = os.path.join(top, 'sentinel')
             hrng = random.Random(rng.getrandbits(64))
             tree, S, R = gen_sentinel(hrng, sent)
-            ops = gen_history(hrng, tree, R, sent, 40 if quick else 80, k)
+            ops = gen_history(hrng, tree, R, sent, 25 if quick else 80, k)
             hist.append({'k': k, 'top': top, 'sent': sent, 'tree': tree, 'S': S, 'R': R, 'ops': ops})
         cfgs = [{'xattr': True}, {'xattr': True, 'cache': 'always', 'no_open': True, 'use_host_ino': True}, {'xattr': True, 'inode_file_handles': True}, {'xattr': True, 'use_host_ino': True}]
         for mode in ('pt', 'vfs'):
@@ -347,6 +362,14 @@ def run_check(tier, seed):
                     if 'data' in kv and kv['data'] != '-' and o['op'] == 'read' and SECRET in bytes.fromhex(kv['data']):
                         findings.append({'what': 'request %d (%s) returned data of a file outside the export' % (j, op_line(o)),
                                          'input': replay_in, 'sig': {'kind': 'outside-data', 'op': o['op']}})
+                    if o['op'] == 'readdirplus' and kv.get('pents', '-') != '-':
+                        for ent in kv['pents'].split(','):
+                            w = ent.split(':'); nm = bytes.fromhex(w[0]) if w[0] != '-' else b''
+                            if mode == 'pt' and (int(w[1]), int(w[2])) in hh['outside_inos']:
+                                findings.append({'what': 'request %d (%s): readdirplus returned the attributes of an object outside the export for entry %r' % (j, op_line(o), nm),
+                                                 'input': replay_in, 'sig': {'kind': 'outside-attr', 'op': 'readdirplus'}})
+                            if nm in (b'inner', b'export', b'lnk', b'sentinel'):
+                                findings.append({'what': 'readdirplus listed a directory outside the export (%r)' % nm, 'input': replay_in, 'sig': {'kind': 'outside-readdir'}})
                     if o['op'] == 'readdir' and kv.get('ents', '-') != '-':
                         for ent in kv['ents'].split(','):
                             nm = bytes.fromhex(ent.split(':')[0]) if ent.split(':')[0] != '-' else b''
@@ -400,7 +423,7 @@ def run_check(tier, seed):
             if 'pt' in hh and 'vfs' in hh and hh['k'] % len(cfgs) == 0:
                 ivalid = [True]; hvalid = []
                 for j, (o, a, b) in enumerate(zip(hh['ops'], hh['pt']['ops'], hh['vfs']['ops'])):
-                    ka = {k: v for k, v in a['r'].items() if k not in ('ino', 'dev', 'ents', 'atime', 'mtime', 'now')}; kb = {k: v for k, v in b['r'].items() if k not in ('ino', 'dev', 'ents', 'atime', 'mtime', 'now')}
+                    ka = {k: v for k, v in a['r'].items() if k not in ('ino', 'dev', 'ents', 'pents', 'atime', 'mtime', 'now')}; kb = {k: v for k, v in b['r'].items() if k not in ('ino', 'dev', 'ents', 'pents', 'atime', 'mtime', 'now')}
                     if refs_valid(o, ivalid, hvalid) and ka != kb:
                         broken.append({'kind': 'correspondence', 'name': 'PassthroughFs behind a Vfs answers differently from the standalone one',
                                        'history': hh['k'], 'request': op_line(o), 'standalone': a['raw'], 'behind_vfs': b['raw']}); break
